@@ -70,10 +70,18 @@ FailC19(r) ==
        Tag(LawsSym(r.post), "LawsSym")
   \cup Tag((r.c.op \in LawOps \cup {"unew"}) => ~Raised(r), "AssignmentSucceeds")
 
+\* C10: pre = projection of the original objects, post = projection of the un-pickled copy
+\* (both extended with the per-object decoration: class, uid, attributes, sharing pattern)
+FailC10(r) ==
+       Tag(r.res.err = "", "RoundTripSucceeds")
+  \cup (IF r.res.err # "" THEN {} ELSE
+          Tag(r.post = r.pre, "CopyIsomorphic") \cup Tag(StructInv(r.post), "CopyWellFormed"))
+
 Fails(r) == CASE Prop = "C01" -> FailC01(r)
               [] Prop = "C02" -> FailC02(r)
               [] Prop = "C03" -> FailC03(r)
               [] Prop = "C19" -> FailC19(r)
+              [] Prop = "C10" -> FailC10(r)
 
 \* what the specification expected, for the replay file (first allowed outcome)
 Expected(r) == IF Prop = "C03" /\ Judgeable(r)
